@@ -68,7 +68,7 @@ ASMJIT_FAVOR_SIZE Error init_call_conv(CallConv& cc, CallConvId call_conv_id, co
         break;
 
       case CallConvId::kVectorCall:
-        cc.set_flags(CallConvFlags::kCalleePopsStack);
+        cc.set_flags(CallConvFlags::kCalleePopsStack | CallConvFlags::kPassFloatsByVec);
         cc.set_passed_order(RegGroup::kGp, kZcx, kZdx);
         cc.set_passed_order(RegGroup::kVec, 0, 1, 2, 3, 4, 5);
         break;
@@ -127,8 +127,10 @@ ASMJIT_FAVOR_SIZE Error init_call_conv(CallConv& cc, CallConvId call_conv_id, co
       cc.set_passed_order(RegGroup::kX86_MM, 0, 1, 2);
 
       // Vector arguments (XMM|YMM|ZMM) are passed via registers. However, if the function is variadic then they have
-      // to be passed via stack.
-      cc.set_passed_order(RegGroup::kVec, 0, 1, 2);
+      // to be passed via stack. VectorCall has already set its six registers.
+      if (call_conv_id != CallConvId::kVectorCall) {
+        cc.set_passed_order(RegGroup::kVec, 0, 1, 2);
+      }
 
       // Functions with variable arguments always use stack for MM and vector arguments.
       cc.add_flags(CallConvFlags::kPassVecByStackIfVA);
